@@ -49,7 +49,7 @@ def generate(rng, tier):
                         'n': int(rng.integers(10, 17)), 'm': int(rng.integers(12, 19))})
         else:
             out.append({'kind': 'history', 'hseed': int(rng.integers(0, 2**31)), 'length': int(rng.integers(5, 41)),
-                        'focus': ['mixed', 'optics', 'fourier', 'detector', 'spectrum'][k % 5]})
+                        'focus': ['mixed', 'optics', 'fourier', 'detector', 'spectrum', 'tilt'][(k - k // 6) % 6]})
     return out
 
 def signature(c): return f"{c['kind']} {c.get('hseed', c.get('which'))} {c.get('length', '')} {c.get('focus', c.get('segments'))}"
@@ -76,7 +76,8 @@ def _digest(o, world=None):
         else: h.update(repr(x).encode())
     if isinstance(o, np.ndarray): add(o)
     elif isinstance(o, lentil.Plane):
-        add([np.asarray(o.amplitude), np.asarray(o.opd), np.asarray(o.mask), o.pixelscale, [(float(t.x), float(t.y)) for t in o.tilt], str(o.ptype)])
+        add([np.asarray(o.amplitude), np.asarray(o.opd), np.asarray(o.mask), o.pixelscale, [(float(t.x), float(t.y)) for t in o.tilt], str(o.ptype),
+             getattr(o, 'x', None), getattr(o, 'y', None)])
     elif isinstance(o, lentil.radiometry.Spectrum):
         add([np.asarray(o.wave), np.asarray(o.value), str(o.waveunit), str(o.valueunit)])
     elif isinstance(o, lentil.Wavefront):
@@ -144,6 +145,28 @@ def _catalogue(w, rng, focus):
                         returns_arg=returns_arg))
     C = w.cells
     a, o, m = w.pick(rng, 'amp'), w.pick(rng, 'opd'), w.pick(rng, 'mask')
+    if focus == 'tilt':
+        # wavefronts that carry tilt, reused as the operand of several Tilt planes and propagated afterwards
+        op('plane.Pupil.__init__', {'amplitude': a, 'opd': o, 'mask': m},
+           lambda: lentil.Pupil(amplitude=C[a], opd=C[o], mask=C[m], pixelscale=PX, focal_length=10), reskind='plane', weight=2)
+    if focus in ('mixed', 'optics', 'tilt'):
+        tx, ty = float(rng.uniform(-2e-5, 2e-5)), float(rng.uniform(-2e-5, 2e-5))
+        op('plane.Tilt.__init__', {}, lambda: lentil.Tilt(x=tx, y=ty), reskind='tiltplane', weight=2)
+        op('wavefront.Wavefront.__init__', {}, lambda: lentil.Wavefront(650e-9, tilt=[tx, ty]), reskind='wf')
+        op('wavefront.Wavefront.__init__', {}, lambda: lentil.Wavefront(650e-9), reskind='wf')
+        tp = w.pick(rng, 'tiltplane'); wft = w.pick(rng, 'wf', lambda x, i: x.ptype in (lentil.none, lentil.pupil))
+        if tp is not None and wft is not None:
+            op('plane.TiltInterface.multiply', {'self': tp, 'wavefront': wft}, lambda: C[wft] * C[tp], reskind='wf', weight=5)
+        pf = w.pick(rng, 'plane', lambda x, i: x.ptype == lentil.pupil)
+        if focus == 'tilt' and pf is not None:
+            PF = C[pf]
+            op('plane.Plane.fit_tilt', {'self': pf}, lambda: PF.fit_tilt(), reskind='plane', weight=3)
+            wfn = w.pick(rng, 'wf', lambda x, i: x.ptype == lentil.none or (x.ptype == lentil.pupil and x.shape in ((), PF.shape) and len(x.data) <= 2))
+            if wfn is not None: op('plane.Plane.multiply', {'self': pf, 'wavefront': wfn}, lambda: C[wfn] * PF, reskind='wf', weight=4)
+            wfp = w.pick(rng, 'wf', lambda x, i: x.ptype == lentil.pupil)
+            if wfp is not None:
+                WP = C[wfp]
+                op('propagate.propagate_dft', {'wavefront': wfp}, lambda: lentil.propagate_dft(WP, pixelscale=5e-6, shape=10, oversample=2), reskind='wf', weight=3)
     if focus in ('mixed', 'optics'):
         op('plane.Pupil.__init__', {'amplitude': a, 'opd': o, 'mask': m},
            lambda: lentil.Pupil(amplitude=C[a], opd=C[o], mask=C[m], pixelscale=PX, focal_length=10), reskind='plane', weight=3)
@@ -285,7 +308,7 @@ def _run_history(c):
         after = w.snap()
         changed = [i for i, (x, y) in enumerate(zip(before, after)) if x != y]
         rescell = None
-        if exc is None and o['reskind'] in ('plane', 'wf', 'spec') and w.find(res) is None:
+        if exc is None and o['reskind'] in ('plane', 'wf', 'spec', 'tiltplane') and w.find(res) is None:
             rescell = w.add(res, o['reskind'])
         argd = {s: before[i] for s, i in o['bind'].items()}
         if exc is None and o['pure']: done.append((o, {s: _digest(w.cells[i]) for s, i in o['bind'].items()}, _digest(res)))
@@ -335,6 +358,18 @@ def _witness(c):
     if c['which'] == 'rotate-ndarray-angle':
         a = np.array(1.0); lentil.Rotate(angle=a, unit='radians')
         return {'untouched': float(a) == 1.0, 'what': 'Rotate(angle=ndarray, unit=radians)'}
+    if c['which'] == 'wavefront-times-tilt-reuse':
+        yy, xx = np.mgrid[0:32, 0:32]
+        amp = ((yy - 16) ** 2 + (xx - 16) ** 2 <= 144).astype(float)
+        p = lentil.Pupil(amplitude=amp, opd=2e-7 * (xx - 16) / 16 * amp, pixelscale=1 / 48, focal_length=10)
+        p.fit_tilt(inplace=True)
+        w1 = lentil.Wavefront(650e-9) * p
+        d0 = _digest(w1); i0 = lentil.propagate_dft(w1, pixelscale=5e-6, shape=32, oversample=2).intensity
+        w2 = w1 * lentil.Tilt(x=2e-5, y=-1e-5)
+        w3 = lentil.Wavefront(650e-9, tilt=[1e-6, 2e-6]); d3 = _digest(w3); w4 = w3 * lentil.Tilt(x=1e-5, y=0)
+        i1 = lentil.propagate_dft(w1, pixelscale=5e-6, shape=32, oversample=2).intensity
+        return {'untouched': _digest(w1) == d0 and np.array_equal(i0, i1) and _digest(w3) == d3 and len(p.tilt) == 1,
+                'what': 'Wavefront * Tilt on a wavefront that already carries tilt'}
     if c['which'] == 'plane-mask-binarised':
         m = np.array([[0., 2.], [3., 0.]]); lentil.Plane(mask=m)
         return {'untouched': m.tolist() == [[0., 2.], [3., 0.]], 'what': 'Plane(mask=m)'}
